@@ -573,6 +573,27 @@ theorem reorder_inv (g : G) (c : Nat) (l : List Nat) (h : Inv g) : Inv (reorder 
       · simpa [setConns, updF, ha] using h.nodup a
   · exact h
 
+
+theorem restoreInsert_inv (g : G) (a b : Nat) (h : Inv g) : Inv (restoreInsert g a b).1 := by
+  unfold restoreInsert
+  split
+  · exact h
+  · rename_i hb
+    split
+    · rename_i hc
+      have h' : Inv { g with valid := fun _ _ => true } := ⟨h.symm, h.typed, h.nodup⟩
+      have := connect1_inv { g with valid := fun _ _ => true } a b h'
+      simp only [connect1, hb, hc, if_false, if_true] at this
+      exact ⟨this.symm, this.typed, this.nodup⟩
+    · exact h
+
+theorem moveChan_inv (g : G) (o n : Nat) (h : Inv g) : Inv (moveChan g o n).1 := by
+  unfold moveChan
+  split
+  · rename_i hs
+    exact seat_inv g _ _ _ h (seatable_spec g _ _ _ hs)
+  · exact h
+
 theorem step_inv (g : G) (op : Op) (h : Inv g) : Inv (step g op).1 := by
   cases op with
   | connect a bs => exact connect_inv g a bs h
@@ -584,6 +605,8 @@ theorem step_inv (g : G) (op : Op) (h : Inv g) : Inv (step g op).1 := by
   | replace r pre => exact replaceConn_inv g r pre h
   | dagAttempt cut fail => exact dagAttempt_inv g cut fail h
   | reorder c l => exact reorder_inv g c l h
+  | restoreInsert a b => exact restoreInsert_inv g a b h
+  | moveChan o n => exact moveChan_inv g o n h
 
 theorem run_inv (g : G) (ops : List Op) (h : Inv g) : Inv (run g ops) := by
   unfold run
